@@ -109,8 +109,10 @@ func SkipIfStillRunning(logger Logger) JobWrapper {
 		return FuncJob(func() {
 			select {
 			case v := <-ch:
+				// Give the token back even if the job panics (e.g. under an outer
+				// Recover), or every later invocation would be skipped.
+				defer func() { ch <- v }()
 				j.Run()
-				ch <- v
 			default:
 				logger.Info("skip")
 			}
